@@ -109,6 +109,9 @@ def variants(der, rng, count, strings=True):
     t = fresh(); set_forms(t, lambda n, allow_indef: 1); out.append(("long-form", b"".join(map(ser, t))))
     t = fresh(); set_forms(t, lambda n, allow_indef: -1 if allow_indef else 0); out.append(("all-indefinite", b"".join(map(ser, t))))
     t = fresh(); set_forms(t, lambda n, allow_indef: 3); out.append(("padded-length", b"".join(map(ser, t))))
+    # X.690 8.1.3.5: up to 126 subsequent length octets, minimality is not required: 8, 9 and 20 length octets (wider than size_t)
+    for k in (8, 9, 20):
+        t = fresh(); set_forms(t, lambda n, allow_indef, k=k: k); out.append((f"padded-length-{k}", b"".join(map(ser, t))))
     # 4. BOOLEAN TRUE forms, 5. SET / SET OF permutations, 6. constructed strings
     t = fresh(); ch = False
     for n in walk(t):
